@@ -4,7 +4,9 @@ package main
 // of Model/Proto.v): several scripted peers connect, handshake, send a few messages of every
 // kind including a rejection, and hang up, in a tight loop, over scripted channel sessions and
 // over a real TCP listener, while a well-behaved neighbour keeps exchanging routing updates with
-// a node whose route-update period is 20 ms (sendRoutingUpdate runs all the time).  Liveness is
+// a node whose route-update period is 20 ms (sendRoutingUpdate runs all the time) and a third,
+// established peer streams several hundred routing updates per second whose epochs keep moving
+// forward (prompt routing-table recalculations all the time).  Liveness is
 // judged DURING the churn and after it: Status() answers within 3 s, the neighbour's ping is
 // answered within 2 s, a new peer is admitted, routed and answered.  Runs in a child process.
 
@@ -34,6 +36,7 @@ type churnResult struct {
 	NotClosed  int64  `json:"sessions_not_closed"`
 	StatusMaxM int64  `json:"status_max_ms"`
 	PingMaxMs  int64  `json:"ping_max_ms"`
+	Streamed   int64  `json:"epoch_updates_streamed"`
 }
 
 // churnMain: <out.json> <rounds-per-peer> <budget-ms>
@@ -88,6 +91,7 @@ func churnMain(args []string) {
 		time.Sleep(5 * time.Millisecond)
 	}
 	stop := make(chan struct{})
+	started := time.Now()
 	var bg sync.WaitGroup
 	pingOK := func(tag string, limit time.Duration) (time.Duration, bool) {
 		t0 := time.Now()
@@ -126,6 +130,44 @@ func churnMain(args []string) {
 			}
 			f := ruFields{Node: goodID, UID: fmt.Sprintf("g%d", seq), Fwd: goodID, Epoch: 1, Seq: seq, Conns: map[string]float64{selfID: 1, fmt.Sprintf("far%d", seq%7): 1}}
 			good.queue <- msg(1, f.tree(), nil)
+		}
+	}()
+	// an established peer streaming routing updates whose epochs keep moving forward: for
+	// third-party origins and for itself, sequence numbers restarting, connection lists changing
+	// and unchanged, duplicate notices about the previous epoch
+	streamer := NewScriptSess()
+	_ = n.AddBackend(&oneShot{streamer}, netceptor.BackendConnectionCost(1.0))
+	streamer.queue <- goodHandshake("streamer")
+	streamer.queue <- []byte{0xff}
+	streamer.waitConsumed(2, barrierTimeout)
+	var streamed int64
+	bg.Add(1)
+	go func() {
+		defer bg.Done()
+		epoch := uint64(10)
+		for k := 0; ; k++ {
+			select {
+			case <-stop:
+				return
+			case <-time.After(2 * time.Millisecond):
+			}
+			origin := []string{"o0", "o1", "o2", "streamer", "o3"}[k%5]
+			if k%3 == 0 {
+				epoch++
+			}
+			f := ruFields{Node: origin, UID: fmt.Sprintf("s%d", k), Fwd: "streamer", Epoch: epoch + uint64(k%5), Seq: uint64(1 + k%4),
+				Conns: map[string]float64{"streamer": 1}}
+			if origin == "streamer" {
+				f.Conns = map[string]float64{selfID: 1}
+			}
+			if k%2 == 0 {
+				f.Conns[fmt.Sprintf("leaf%d", k%9)] = 1 // a changed connection list
+			}
+			if k%11 == 0 && origin != "streamer" {
+				f.Dup = f.Epoch - 1 // "the node with the previous epoch is a duplicate"
+			}
+			streamer.queue <- msg(1, f.tree(), nil)
+			atomic.AddInt64(&streamed, 1)
 		}
 	}()
 	// liveness probes DURING the churn
@@ -225,6 +267,13 @@ func churnMain(args []string) {
 		}(p)
 	}
 	cw.Wait()
+	// the update stream and the probes run for at least 2.5 s
+	for t0 := time.Now(); !failed() && time.Since(t0) < 5*time.Second && (time.Since(started) < 2500*time.Millisecond || atomic.LoadInt64(&streamed) < 600); {
+		time.Sleep(20 * time.Millisecond)
+	}
+	resMu.Lock()
+	res.Streamed = atomic.LoadInt64(&streamed)
+	resMu.Unlock()
 	close(stop)
 	bg.Wait()
 	// ... and after it
@@ -280,7 +329,7 @@ func stageChurn(c *Ctx, im *Impl) {
 		}
 		im.Extra["churn"] = r
 		if r.Wedged != "" {
-			im.Violate(fmt.Sprintf("connection churn (6 peers connect/handshake/messages/reject/hang up in a loop, neighbour exchanging routing updates): after %d rounds %s", r.Rounds, r.Wedged),
+			im.Violate(fmt.Sprintf("connection churn (6 peers connect/handshake/messages/reject/hang up in a loop, a neighbour exchanging routing updates, a peer streaming updates with ever newer epochs): after %d rounds %s", r.Rounds, r.Wedged),
 				"wedge:churn", r)
 		}
 	}
